@@ -51,6 +51,11 @@ add("C14", "metamorphic repetition testing: generated multi-module projects comp
     "Go map iteration order can only be resampled; interleavings finer than module granularity are reached only by repetition. Assembler/linker are replaced by /bin/true for the native target (only the IL is compared). One recorded finding (schedule-dependent circular-import diagnostic) is excluded by construction.",
     "DESIGN.md §4 C14")
 
+add("C01", "differential testing of generated programs against a reference interpreter (rapid type-directed program generator, math/big interpreter)",
+    "Well-typed core-language programs are generated type-directed (all integer widths, bool, str, nested structs and methods, enums/match, fixed and dynamic arrays, references, closures, results/catch, recursion, loops), compiled by the real compiler to a native executable and run; stdout lines and termination kind must equal those computed by an independent reference interpreter written from the property statements. A rejection of such a program is a violation too. Exploration; shrunk counter-examples are saved with source, expected and observed output.",
+    "The reference interpreter (harness/fer) is the trusted definition of the core semantics; constructs the documentation leaves open are never generated (division by zero, MIN/-1, out-of-range casts, aliasing of dynamic arrays). Recorded known findings (QBE rega assertion, QBE copy-pass hang on self-assignment in loops, closures created in nested blocks) are excluded by construction or suppressed by their specific key.",
+    "DESIGN.md §4 C01")
+
 def main():
     props = [json.loads(l) for l in open(os.path.join(V, "properties.jsonl"))]
     checks, na = [], []
